@@ -135,6 +135,8 @@ def _worker_run(arg):
         _MODULE.run_unit(unit, acc)
     except Exception:  # a crash of the harness itself (not of the code under test)
         return idx, None, traceback.format_exc()
+    for v in acc.violations:  # remember the unit: a history-dependent violation is replayed through its whole unit
+        v["unit"] = unit
     return idx, acc, None
 
 
